@@ -4,9 +4,11 @@ import os
 import sys
 
 from core.engine import Property, F
-from props.c15_learners import Scripted, dec, enc, freeze, HINT
+from props.c15_learners import Scripted, dec, enc, freeze, is_batch, HINT
 
 LCG_A, LCG_C, LCG_M = 116646453, 9, 2 ** 30
+HINTS = ("action", "action_prob", "pmf")
+FMTS = ["A", "AP", "PM", "dA", "dAP", "dPM"]
 
 
 # ----------------------------------------------------------------------------------------------
@@ -18,7 +20,7 @@ class RefRng:
     def __init__(self, seed):
         self.s = int(seed) % LCG_M
 
-    def choicew(self, n, weights):
+    def choicew(self, weights):
         self.s = (LCG_A * self.s + LCG_C) % LCG_M
         r = (self.s / LCG_M) * sum(weights)
         acc = 0
@@ -39,7 +41,7 @@ def intended(case):
             kw = {dec(k): dec(v) for k, v in row["kwargs"]} if case.get("kw") else {}
             if case["fmt"] in ("PM", "dPM"):
                 pmf = [dec(x) for x in row["pmf"]]
-                i = rng.choicew(len(row["actions"]), pmf)
+                i = rng.choicew(pmf)
                 rows.append((i, None if i is None else pmf[i], kw))
             elif case["fmt"] in ("AP", "dAP"):
                 rows.append((row["pick"], dec(row["p"]), kw))
@@ -49,12 +51,94 @@ def intended(case):
     return out
 
 
+def kind_of(v):
+    (k, x), = v.items()
+    return k, x
+
+
+def in_quantifier(case):
+    """Is the learner of this case inside the property's quantifier?  (documented format used consistently, answering with
+    the offered action objects themselves, and - where the un-hinted value could be read two ways - nothing at all:
+    those cases are design limits, checked by (A) only).  Returns (bool, reason)."""
+    if case.get("answer", "offered") != "offered":
+        return False, "answers with copies / aliases of the offered objects"
+    if case.get("weird"):
+        return False, "malformed answer"
+    fmt, kw, layout, batch = case["fmt"], bool(case.get("kw")), case["layout"], bool(case.get("batch"))
+    hinted = fmt in HINT
+    first = case["calls"][0]
+    for call in case["calls"]:
+        if not call or (not batch and len(call) != 1):
+            return False, "empty call"
+        keys0 = [json.dumps(k) for k, _ in call[0]["kwargs"]]
+        for row in call:
+            K = len(row["actions"])
+            if K == 0 or not (0 <= row["pick"] < K):
+                return False, "no offered actions"
+            if sorted(json.dumps(k) for k, _ in row["kwargs"]) != sorted(keys0):
+                return False, "kwargs keys differ between the rows of a call"
+            if kw and any(dec(k) in HINTS for k, _ in row["kwargs"]):
+                return False, "kwargs key named like a hint"
+            if len(row["pmf"]) != K:
+                return False, "PMF not over the actions"
+            for a in row["actions"]:
+                k, x = kind_of(a)
+                if k == "n":
+                    return False, "None offered as an action"
+                if k == "d" and not hinted and fmt == "A" and any(dec(kk) in HINTS for kk, _ in x):
+                    return False, "un-hinted sparse action with a feature named like a hint"
+            if not hinted and fmt == "A":
+                k, x = kind_of(row["actions"][row["pick"]])
+                if k in ("t", "l") and len(x) == 2 and kind_of(x[0])[0] in ("i", "b", "n") and any(
+                        kind_of(a)[0] in ("i", "b", "n") and freeze(dec(a)) == freeze(dec(x[0])) and type(dec(a)) is type(dec(x[0])) for a in row["actions"]):
+                    return False, "un-hinted two-item action whose first item is itself an offered action"
+    if batch and layout == "col" and not hinted:
+        if fmt == "PM" and len(first[0]["actions"]) < 2:
+            return False, "un-hinted column-major PMF over one action has the shape of a column of actions"
+        if fmt == "A" and not kw and len(first) < 2:
+            return False, "un-hinted column-major actions for a one-row batch have the shape of a row-major answer"
+    return True, ""
+
+
+def defect_class(case):
+    """Region of a recorded defect of the pinned commit the case lies in (first match in the order the code reaches them)."""
+    fmt, kw, layout, batch = case["fmt"], bool(case.get("kw")), case["layout"], bool(case.get("batch"))
+    hinted = fmt in HINT
+    first = case["calls"][0]
+    r0 = first[0]
+    K = len(r0["actions"])
+    if batch and layout in ("row", "single") and fmt == "A" and not kw and len(first) >= 2:
+        # row-major bare sparse actions whose first and last row have different feature names
+        a, b = kind_of(first[0]["actions"][first[0]["pick"]]), kind_of(first[-1]["actions"][first[-1]["pick"]])
+        if a[0] == "d" and b[0] == "d" and set(json.dumps(k) for k, _ in a[1]) != set(json.dumps(k) for k, _ in b[1]):
+            return "sparse-rows"
+    if not hinted:
+        if fmt == "A":
+            k, x = kind_of(r0["actions"][r0["pick"]])
+            if (k == "d" and len(x) <= 2) or (k in ("t", "l") and len(x) <= 1):
+                return "short-answer"
+        if fmt == "PM" and K == 1:
+            return "short-answer"
+    if batch and layout == "col":
+        if hinted and kw:
+            return "col-hint-kw"
+        if fmt == "A":
+            return "col-A"
+        if fmt == "PM":
+            return "col-PM"
+    if batch and fmt == "PM" and K == 2:
+        k, x = kind_of(r0["pmf"][0])
+        if k == "i" and any(kind_of(a) == ("i", x) for a in r0["actions"]):
+            return "batched-int01-pmf"
+    return "general"
+
+
 # ----------------------------------------------------------------------------------------------
 # running the real code
 # ----------------------------------------------------------------------------------------------
-def run_case(case, keep=None):
+def run_case(case):
     """Drive the real SafeLearner exactly as SequentialCB does: predict, then learn with what predict returned.
-    Returns a list of per-call records holding live objects."""
+    Returns (learner, per-call records holding live objects)."""
     from coba.safety import SafeLearner
     from coba.context import CobaContext, NullLogger
     from coba.environments import Batch
@@ -66,7 +150,7 @@ def run_case(case, keep=None):
         recs = []
         for ci, call in enumerate(case["calls"]):
             ctxs = [dec(r["ctx"]) for r in call]
-            acts = [[dec(a) for a in r["actions"]] if r["actions"] is not None else None for r in call]
+            acts = [[dec(a) for a in r["actions"]] for r in call]
             if case.get("batch"):
                 ctx, act = Batch.List(ctxs), Batch.List(acts)
                 rwd = Batch.List([0.25 * (i + 1) for i in range(len(call))])
@@ -98,7 +182,7 @@ def run_case(case, keep=None):
 
 
 def same(x, y):
-    """value equality that does not confuse containers of different type (tuple vs list) nor bool/None with numbers' absence"""
+    """Python == that also keeps None apart from numbers"""
     return freeze(x) == freeze(y) and (x is None) == (y is None)
 
 
@@ -106,41 +190,25 @@ def short(o):
     return json.dumps(enc(o), separators=(",", ":"))[:160]
 
 
-def action_class(case):
-    """coarse class of the offered actions (for tags / narrow signatures)"""
-    ks = set()
-    for call in case["calls"]:
-        for row in call:
-            for a in row["actions"]:
-                (k, x), = a.items()
-                if k == "i":
-                    ks.add("int01" if x in (0, 1) else "int")
-                elif k == "f":
-                    ks.add("flt01" if x[0] in (0, x[1]) else ("fltp" if 0 < x[0] < x[1] else "flt"))
-                elif k == "b":
-                    ks.add("bool")
-                elif k in ("t", "l", "d"):
-                    ks.add({"t": "tup", "l": "lst", "d": "dict"}[k] + (str(len(x)) if len(x) < 3 else "3+"))
-                else:
-                    ks.add({"s": "str", "n": "none"}[k])
-    return ks
+FAMILY = {"action-shape": "shape", "prob-shape": "shape", "not-a-triple": "shape"}
 
 
 def monitor(case, learner, recs):
-    """(B) the property itself on what the real code returned.  Returns list of (what, sigdetail)."""
+    """(B) the property itself on what the real code returned.  Returns list of (what, detail)."""
     fails = []
     want = intended(case)
     fmt, layout, batch = case["fmt"], case["layout"], bool(case.get("batch"))
     name = "%s/%s%s" % (("not" if not batch else layout), fmt, "+kw" if case.get("kw") else "")
 
     def bad(what, detail):
-        fails.append(("%s: %s" % (name, what), "%s/%s" % (name, detail)))
+        fails.append(("%s: %s" % (name, what), detail if ci == 0 else "later:" + detail))
 
+    ci = 0
     for ci, (rec, call, exp) in enumerate(zip(recs, case["calls"], want)):
         n = len(call)
         where = "call %d (%d row%s, %d action%s)" % (ci, n, "s" * (n != 1), len(call[0]["actions"]), "s" * (len(call[0]["actions"]) != 1))
         if "exc" in rec:
-            bad("%s: predict raised %s: %s" % (where, type(rec["exc"]).__name__, str(rec["exc"])[:120]), "predict-raises-" + type(rec["exc"]).__name__)
+            bad("%s: predict raised %s: %s" % (where, type(rec["exc"]).__name__, str(rec["exc"])[:120]), "raises-" + type(rec["exc"]).__name__)
             break
         out = rec["out"]
         if not (isinstance(out, tuple) and len(out) == 3):
@@ -166,12 +234,12 @@ def monitor(case, learner, recs):
             if not same(A[i], wa):
                 offered = any(same(A[i], a) for a in acts[i])
                 kind = "pmf-draw" if fmt in ("PM", "dPM") else "action"
-                bad("%s row %d: action %s returned, the learner %s %s (offered %s)" % (
-                    where, i, short(A[i]), "named" if kind == "action" else "PMF+seed draw is", short(wa), short(acts[i])),
+                bad("%s row %d: action %s returned, %s %s (offered %s)" % (
+                    where, i, short(A[i]), "the learner named" if kind == "action" else "the draw from the PMF with this seed is", short(wa), short(acts[i])),
                     "%s-%s" % (kind, "other-offered" if offered else "not-offered"))
                 stop = True
                 break
-            if not same(P[i], p) or (p is not None and isinstance(P[i], bool)):
+            if not same(P[i], p) or (p is not None and isinstance(P[i], bool) != isinstance(p, bool)):
                 bad("%s row %d: probability %s returned, the learner stated %s" % (where, i, short(P[i]), short(p)),
                     "prob-" + ("missing" if P[i] is None else "unstated" if p is None else "wrong"))
                 stop = True
@@ -181,9 +249,10 @@ def monitor(case, learner, recs):
         if batch:
             keys = list(exp[0][2])
             wkw = {k: [e[2][k] for e in exp] for k in keys}
+            gkw = {k: (list(v) if isinstance(v, (list, tuple)) else v) for k, v in KW.items()} if isinstance(KW, dict) else KW
         else:
-            wkw = exp[0][2]
-        if not (isinstance(KW, dict) and same({k: (list(v) if batch and isinstance(v, (list, tuple)) else v) for k, v in KW.items()}, wkw)):
+            wkw, gkw = exp[0][2], KW
+        if not (isinstance(KW, dict) and same(gkw, wkw)):
             bad("%s: kwargs %s returned, the learner gave %s" % (where, short(KW), short(wkw)), "kwargs-wrong")
             break
         # per-row invocation of a learner that cannot handle batches: once per row, in order
@@ -201,10 +270,13 @@ def monitor(case, learner, recs):
         if batch and layout == "single":
             ok = len(lcs) == n and all((not l[0]) and same(l[1], dec(r["ctx"])) and same(l[2], acts[i][e[0]]) and same(l[4], e[1]) and same(l[5], e[2])
                                        and same(l[3], rec["rwd"][i]) for i, (l, r, e) in enumerate(zip(lcs, call, exp)))
+        elif batch:
+            ok = (len(lcs) == 1 and isinstance(lcs[0][5], dict)
+                  and same({k: list(v) if isinstance(v, (list, tuple)) else v for k, v in lcs[0][5].items()}, wkw)
+                  and len(lcs[0][2]) == n and all(same(x, acts[i][e[0]]) for i, (x, e) in enumerate(zip(lcs[0][2], exp)))
+                  and all(same(x, e[1]) for x, e in zip(lcs[0][4], exp)))
         else:
-            ok = len(lcs) == 1 and same(lcs[0][5], wkw if not batch else {k: v for k, v in wkw.items()}) if not batch else (
-                len(lcs) == 1 and isinstance(lcs[0][5], dict) and same({k: list(v) if isinstance(v, (list, tuple)) else v for k, v in lcs[0][5].items()}, wkw)
-                and len(lcs[0][2]) == n and all(same(x, acts[i][e[0]]) for i, (x, e) in enumerate(zip(lcs[0][2], exp))))
+            ok = len(lcs) == 1 and same(lcs[0][5], wkw) and same(lcs[0][2], acts[0][exp[0][0]]) and same(lcs[0][4], exp[0][1])
         if not ok:
             bad("%s: learn received %s, expected the kwargs %s (and the predicted action/probability) per %s" % (
                 where, short([l[1:] for l in lcs]), short(wkw), "row" if layout == "single" and batch else "call"), "learn-args-wrong")
@@ -212,32 +284,712 @@ def monitor(case, learner, recs):
     return fails
 
 
+def e2e_applicable(case):
+    """the evaluator regroups nothing: every call has the size of the first one, except a smaller last one"""
+    sizes = [len(c) for c in case["calls"]]
+    if not case.get("batch"):
+        return True
+    return all(n == sizes[0] for n in sizes[:-1]) and sizes[-1] <= sizes[0]
+
+
+class ListEnv:
+    def __init__(self, interactions):
+        self.interactions = interactions
+        self.params = {}
+
+    def read(self):
+        return list(self.interactions)
+
+
+def run_e2e(case):
+    """the same learner behind the real evaluator: SequentialCB(learn='on', eval='on', seed).evaluate(environment, learner)"""
+    from coba.evaluators import SequentialCB
+    from coba.primitives import SimulatedInteraction
+    from coba.environments import Batch
+    from coba.context import CobaContext, NullLogger
+    old = CobaContext._logger
+    CobaContext.logger = NullLogger()
+    try:
+        rows = [r for call in case["calls"] for r in call]
+        its = [SimulatedInteraction(dec(r["ctx"]), [dec(a) for a in r["actions"]], [0.25 * (j + 1) for j in range(len(r["actions"]))]) for r in rows]
+        if case.get("batch"):
+            its = list(Batch(len(case["calls"][0])).filter(its))
+        learner = Scripted(case)
+        ev = SequentialCB(record=["action", "probability", "reward"], learn="on", eval="on", seed=1 if case.get("seed") is None else case["seed"])
+        try:
+            res = list(ev.evaluate(ListEnv(its), learner))
+        except Exception as e:
+            return learner, e
+        return learner, res
+    finally:
+        CobaContext._logger = old
+        CobaContext.learning_info.clear()
+
+
+def monitor_e2e(case, learner, res):
+    want = [e for call in intended(case) for e in call]
+    rows = [r for call in case["calls"] for r in call]
+    name = "%s/%s%s" % (("not" if not case.get("batch") else case["layout"]), case["fmt"], "+kw" if case.get("kw") else "")
+    if isinstance(res, Exception):
+        return [("%s: SequentialCB.evaluate raised %s: %s" % (name, type(res).__name__, str(res)[:150]), "e2e-raises-" + type(res).__name__)]
+    if len(res) != len(rows):
+        return [("%s: SequentialCB.evaluate yielded %d results for %d interactions" % (name, len(res), len(rows)), "e2e-result-count")]
+    for i, (out, r, (idx, p, kw)) in enumerate(zip(res, rows, want)):
+        if idx is None:
+            continue
+        wa = dec(r["actions"][idx])
+        okr = [0.25 * (j + 1) for j, a in enumerate(r["actions"]) if same(dec(a), wa)]     # equal actions (1 == 1.0 == True) share a reward lookup
+        if not same(out.get("action"), wa) or out.get("reward") not in okr:
+            return [("%s: evaluator recorded action %s reward %s for interaction %d, the learner's answer means action %s reward %s" % (
+                name, short(out.get("action")), out.get("reward"), i, short(wa), 0.25 * (idx + 1)), "e2e-action")]
+        if not same(out.get("probability"), p):
+            return [("%s: evaluator recorded probability %s for interaction %d, the learner stated %s" % (name, short(out.get("probability")), i, short(p)), "e2e-prob")]
+    lcs = [l for l in learner.learn_calls if l[0] != "rejected"]
+    got = []      # per interaction: (action, probability, kwargs) as learn received them
+    for l in lcs:
+        if l[0]:
+            n = len(l[2])
+            for j in range(n):
+                try:
+                    got.append((l[2][j], l[4][j], {k: v[j] for k, v in l[5].items()}, l[3][j]))
+                except Exception:
+                    got.append(("?", "?", "?", "?"))
+        else:
+            got.append((l[2], l[4], l[5], l[3]))
+    if len(got) != len(rows):
+        return [("%s: learn was given %d interactions in total, %d were evaluated" % (name, len(got), len(rows)), "e2e-learn-count")]
+    for i, ((a, pr, kwg, rw), r, (idx, p, kw)) in enumerate(zip(got, rows, want)):
+        if idx is None:
+            continue
+        if not (isinstance(kwg, dict) and same(kwg, kw)):
+            return [("%s: learn received kwargs %s for interaction %d, predict returned %s" % (name, short(kwg), i, short(kw)), "e2e-learn-kwargs")]
+        if not same(a, dec(r["actions"][idx])) or not same(pr, p) or rw not in [0.25 * (j + 1) for j, x in enumerate(r["actions"]) if same(dec(x), dec(r["actions"][idx]))]:
+            return [("%s: learn received action %s prob %s reward %s for interaction %d, expected %s %s %s" % (
+                name, short(a), short(pr), rw, i, short(dec(r["actions"][idx])), short(p), 0.25 * (idx + 1)), "e2e-learn-args")]
+    return []
+
+
+# ----------------------------------------------------------------------------------------------
+# identity-preserving encoding for the Lean driver
+# ----------------------------------------------------------------------------------------------
+class Refs:
+    """object identity -> who created the object (ext = environment, safe = SafeLearner's float copies, lrn = learner)"""
+
+    def __init__(self):
+        self.map, self.keep, self.n_ext, self.n_lrn = {}, [], 0, 0
+
+    def _reg(self, o, ref):
+        self.map[id(o)] = ref
+        self.keep.append(o)
+        return ref
+
+    def ext(self, o):
+        if isinstance(o, (float, str, tuple, list, dict)) and id(o) not in self.map:
+            self.n_ext += 1
+            self._reg(o, ["e", self.n_ext])
+        if isinstance(o, (tuple, list)):
+            for e in o:
+                self.ext(e)
+        elif isinstance(o, dict):
+            for k, v in o.items():
+                self.ext(v)
+
+    def ref(self, o, safe=None):
+        r = self.map.get(id(o))
+        if r is None:
+            if safe is not None:
+                r = self._reg(o, ["s", safe])
+            else:
+                self.n_lrn += 1
+                r = self._reg(o, ["l", self.n_lrn])
+        return r
+
+    def enc(self, o, safe=None):
+        if o is None:
+            return {"n": 0}
+        if isinstance(o, bool):
+            return {"b": o}
+        if isinstance(o, int):
+            return {"i": o}
+        if isinstance(o, float):
+            from fractions import Fraction
+            fr = Fraction(o)
+            return {"f": [self.ref(o, safe), fr.numerator, fr.denominator]}
+        if isinstance(o, str):
+            return {"s": [self.ref(o), o]}
+        if isinstance(o, tuple):
+            return {"t": [self.ref(o), [self.enc(e) for e in o]]}
+        if isinstance(o, list):
+            return {"l": [self.ref(o), [self.enc(e) for e in o]]}
+        if isinstance(o, dict):
+            if not all(isinstance(k, str) for k in o):
+                raise Unencodable("non-string dict key")
+            return {"d": [self.ref(o), [[k, self.enc(v)] for k, v in o.items()]]}
+        raise Unencodable(type(o).__name__)
+
+    def arg(self, batched, context, actions, received=False, row=0):
+        """`received`: the argument as the learner got it - a float it has not seen before at position (r,j) is SafeLearner's
+        copy of the offered 0/1 action there (`row`: the batch row a per-row call is made for)"""
+        if batched:
+            rows = [{"ctx": self.enc(c), "actions": [self.enc(a, safe=(r * 4096 + j) if received else None) for j, a in enumerate(A)]}
+                    for r, (c, A) in enumerate(zip(context, actions))]
+        else:
+            rows = [{"ctx": self.enc(context), "actions": [self.enc(a, safe=(row * 4096 + j) if received else None) for j, a in enumerate(actions)]}]
+        return {"batch": bool(batched), "rows": rows}
+
+
+class Unencodable(Exception):
+    pass
+
+
+EXC = {"CobaException": "CobaException", "KeyError": "KeyError", "IndexError": "IndexError", "TypeError": "TypeError",
+       "AttributeError": "AttributeError", "ValueError": "ValueError", "StopIteration": "StopIteration",
+       "ZeroDivisionError": "ZeroDivisionError", "NotBatchable": "LearnerError"}
+
+_VARIANT = {}
+
+
+def variant():
+    """Which of the proposed repairs (fixes/C15-*.diff) does the code under test already contain?  Decided once per process by
+    four tiny behavioural probes; the Lean model has the same four switches, so (A) always compares against the model of
+    the code as it is (pinned commit: all off)."""
+    key = os.environ.get("COBA_REPO", "/repo")
+    if key in _VARIANT:
+        return _VARIANT[key]
+
+    def ok(case):
+        try:
+            learner, recs = run_case(case)
+            return not monitor(case, learner, recs)
+        except Exception:
+            return False
+    row = lambda acts, pick, pmf, i=0: {"ctx": {"i": i}, "actions": acts, "pick": pick, "p": {"f": [1, 2]}, "pmf": pmf, "kwargs": [[{"s": "k"}, {"i": i}]]}
+    d2 = [{"d": [[{"s": "x"}, {"i": j}], [{"s": "y"}, {"i": 7}]]} for j in (2, 3)]
+    s2 = [{"s": "aa"}, {"s": "bb"}]
+    i01 = [{"i": 0}, {"i": 1}]
+    sp = [{"d": [[{"s": "f%d" % j}, {"i": 1}]]} for j in (0, 1)]
+    one = [{"i": 1}, {"i": 0}]
+    fx = {
+        "short": ok({"seed": 1, "fmt": "A", "kw": False, "layout": "single", "batch": False, "calls": [[row(d2, 0, one)]]}),
+        "batch": ok({"seed": 1, "fmt": "PM", "kw": False, "layout": "row", "batch": True, "calls": [[row(i01, 0, one, 0), row(i01, 1, one, 1)]]}),
+        "col": ok({"seed": 1, "fmt": "A", "kw": True, "layout": "col", "batch": True, "calls": [[row(s2, 0, one, 0), row(s2, 1, one, 1)]]}),
+        "rowdict": ok({"seed": 1, "fmt": "A", "kw": False, "layout": "row", "batch": True, "calls": [[row(sp, 0, one, 0), row(sp, 1, one, 1)]]}),
+    }
+    _VARIANT[key] = fx
+    return fx
+
+
+def outcome_impl(recs):
+    """per call: the value predict returned, or the exception class"""
+    outs = []
+    for rec in recs:
+        if "exc" in rec:
+            outs.append({"err": EXC.get(type(rec["exc"]).__name__, type(rec["exc"]).__name__)})
+        elif "out" in rec:
+            o = rec["out"]
+            if isinstance(o, tuple) and len(o) == 3:
+                outs.append({"ok": {"a": enc(o[0]), "p": enc(o[1]), "kw": enc(o[2])}})
+            else:
+                outs.append({"ok": enc(o)})
+    return outs
+
+
+def outcome_model(rs):
+    return [{"ok": r["ok"]} if "ok" in r else {"err": r["err"]} for r in rs]
+
+
+def outcomes_differ(impl, model):
+    if len(impl) != len(model):
+        return "implementation made %d calls' worth of results, model %d" % (len(impl), len(model))
+    for i, (a, b) in enumerate(zip(impl, model)):
+        if "err" in a or "err" in b:
+            if ("err" in a) != ("err" in b):
+                return "call %d: implementation %s, model %s" % (i, json.dumps(a)[:150], json.dumps(b)[:150])
+            if b["err"] != "Other" and a["err"] != b["err"]:
+                return "call %d: implementation raised %s, model %s" % (i, a["err"], b["err"])
+        elif a["ok"] != b["ok"]:
+            return "call %d: implementation %s, model %s" % (i, json.dumps(a["ok"])[:200], json.dumps(b["ok"])[:200])
+    return None
+
+
+def trace_by_value(arg):
+    return [bool(arg["batch"]), [[strip(r["ctx"]), [strip(a) for a in r["actions"]]] for r in arg["rows"]]]
+
+
+def strip(v):
+    """drop refs from a ref-carrying encoding (gives the by-value encoding of c15_learners.enc / the Lean driver)"""
+    (k, x), = v.items()
+    if k in ("n", "b", "i"):
+        return v
+    if k == "f":
+        return {"f": [x[1], x[2]]}
+    if k == "s":
+        return {"s": x[1]}
+    if k in ("t", "l"):
+        return {k: [strip(e) for e in x[1]]}
+    if k == "d":
+        return {"d": [[{"s": kk}, strip(vv)] for kk, vv in x[1]]}
+    raise ValueError(v)
+
+
+# ----------------------------------------------------------------------------------------------
+# generators
+# ----------------------------------------------------------------------------------------------
+def dy(rng, den=16):
+    return {"f": [rng.randint(1, den - 1), den]}
+
+
+def gen_scalar(rng):
+    return rng.wchoice([(3, {"i": rng.randint(-3, 9)}), (2, dy(rng)), (2, {"s": rng.choice(["a", "bc", "xyz", "", "action"])}), (1, {"b": rng.chance(0.5)}), (1, {"n": 0})])
+
+
+def gen_ctx(rng):
+    r = rng.below(10)
+    if r < 2:
+        return {"n": 0}
+    if r < 4:
+        return {"i": rng.randint(0, 50)}
+    if r < 5:
+        return dy(rng, 8)
+    if r < 6:
+        return {"s": rng.choice(["u1", "ctx", "a"])}
+    if r < 7:
+        return {"t": [{"i": rng.randint(0, 3)} for _ in range(rng.randint(1, 3))]}
+    if r < 8:
+        return {"l": [dy(rng, 4) for _ in range(rng.randint(1, 3))]}
+    return {"d": [[{"s": "c%d" % j}, {"i": rng.randint(0, 5)}] for j in range(rng.randint(1, 3))]}
+
+
+ACTION_KINDS = ["int01", "ints", "mixint", "bool", "fltp", "flt01", "fltmix", "str", "str1", "onehot_t", "onehot_l", "tup1", "tup2", "tup3", "lst2",
+                "dict1", "dict2", "dict3", "sparse1h", "mixed"]
+
+
+def gen_actions(rng, kind, K):
+    if kind == "int01":
+        return rng.shuffle([{"i": j} for j in range(K)])
+    if kind == "ints":
+        return [{"i": v} for v in rng.sample(list(range(2, 12)), K)]
+    if kind == "mixint":
+        return rng.shuffle([{"i": v} for v in rng.sample([0, 1] + list(range(2, 8)), K)])
+    if kind == "bool":
+        return rng.shuffle([{"b": False}, {"b": True}])[:max(1, min(K, 2))]
+    if kind == "fltp":
+        return [{"f": [v, 16]} for v in rng.sample(list(range(1, 16)), K)]
+    if kind == "flt01":
+        return rng.shuffle([{"f": [0, 1]}, {"f": [1, 1]}, {"f": [1, 2]}, {"f": [1, 4]}, {"f": [3, 4]}][:max(K, 1)])[:K]
+    if kind == "fltmix":
+        return rng.shuffle([{"i": 0}, {"f": [1, 1]}, {"f": [1, 2]}, {"i": 1}, {"f": [0, 1]}])[:K]
+    if kind == "str":
+        return [{"s": v} for v in rng.sample(["aa", "bb", "cat", "dog", "action", "pmf", "xy", "left", "0"], K)]
+    if kind == "str1":
+        return [{"s": v} for v in rng.sample(["a", "b", "c", "d", "e", "1"], K)]
+    if kind in ("onehot_t", "onehot_l"):
+        t = "t" if kind == "onehot_t" else "l"
+        return [{t: [{"i": int(i == j)} for i in range(K)]} for j in range(K)]
+    if kind == "tup1":
+        return [{"t": [{"i": v}]} for v in rng.sample(list(range(0, 9)), K)]
+    if kind == "tup2":
+        return [{"t": [rng.choice([{"i": v}, {"f": [v, 8]}]), dy(rng, 4)]} for v in rng.sample(list(range(0, 9)), K)]
+    if kind == "tup3":
+        return [{"t": [{"i": v}, dy(rng, 4), {"s": "f"}]} for v in rng.sample(list(range(0, 9)), K)]
+    if kind == "lst2":
+        return [{"l": [{"f": [v, 8]}, {"f": [8 - v, 8]}]} for v in rng.sample(list(range(0, 9)), K)]
+    if kind in ("dict1", "dict2", "dict3"):
+        nf = int(kind[-1])
+        return [{"d": [[{"s": "x"}, {"i": v}]] + [[{"s": "y%d" % t}, dy(rng, 4)] for t in range(nf - 1)]} for v in rng.sample(list(range(0, 9)), K)]
+    if kind == "sparse1h":
+        nf = rng.choice([1, 1, 2, 3])
+        return [{"d": [[{"s": "f%d" % v}, {"i": 1}]] + [[{"s": "g%d" % t}, {"i": t}] for t in range(nf - 1)]} for v in rng.sample(list(range(0, 9)), K)]
+    # mixed
+    pool = [{"i": 0}, {"i": 1}, {"i": 5}, {"f": [1, 2]}, {"s": "aa"}, {"t": [{"i": 1}, {"i": 0}]}, {"l": [{"i": 5}, {"f": [1, 2]}]},
+            {"d": [[{"s": "x"}, {"i": 1}]]}, {"b": True}, {"t": [{"i": 5}, {"i": 1}]}]
+    return rng.sample(pool, K)
+
+
+def gen_pmf(rng, K, style):
+    if style == "onehot_int":
+        j = rng.below(K)
+        return [{"i": int(i == j)} for i in range(K)]
+    if style == "onehot_flt":
+        j = rng.below(K)
+        return [{"f": [int(i == j), 1]} for i in range(K)]
+    if style == "mixed01":
+        j = rng.below(K)
+        return [({"i": 1} if i == j else {"f": [0, 1]}) for i in range(K)]
+    # dyadic entries summing to exactly 1 (float addition exact)
+    den = rng.choice([4, 8, 16])
+    cuts = sorted(rng.randint(0, den) for _ in range(K - 1))
+    parts = [b - a for a, b in zip([0] + cuts, cuts + [den])]
+    return [{"f": [p, den]} for p in parts]
+
+
+def gen_kwargs(rng, keys):
+    return [[{"s": k}, rng.wchoice([(3, gen_scalar(rng)), (1, {"l": [gen_scalar(rng) for _ in range(rng.randint(0, 2))]}),
+                                    (1, {"d": [[{"s": "q"}, {"i": 1}]]}), (1, {"t": [{"i": 1}, {"i": 2}]})])] for k in keys]
+
+
+def gen_case(rng, quant=True):
+    fmt = rng.choice(FMTS)
+    kw = rng.chance(0.5)
+    mode = rng.wchoice([(3, "not"), (3, "single"), (4, "row"), (5, "col")])
+    batch = mode != "not"
+    layout = "single" if mode == "not" else mode
+    kind = rng.choice(ACTION_KINDS)
+    K = rng.wchoice([(2, 1), (4, 2), (4, 3), (2, 4), (1, 5)])
+    ncalls = rng.wchoice([(3, 1), (3, 2), (2, 3)])
+    keys = rng.sample(["k", "info", "z", "n_obs", "a"] + (["pmf"] if rng.chance(0.1) else []), rng.wchoice([(1, 0), (3, 1), (2, 2), (1, 3)])) if kw else []
+    pmf_style = rng.wchoice([(3, "onehot_int"), (1, "onehot_flt"), (1, "mixed01"), (4, "dyadic")])
+    if rng.chance(0.3):
+        # the heart of the disambiguation: answers whose items are 0/1-like next to action sets containing 0/1-like values
+        fmt = rng.wchoice([(6, "PM"), (2, "A"), (2, "AP"), (1, "dPM")])
+        kind = rng.choice(["int01", "mixint", "bool", "flt01", "fltmix", "onehot_t", "onehot_l", "lst2", "tup2", "fltp"])
+        K = rng.wchoice([(1, 1), (6, 2), (3, 3)])
+        pmf_style = rng.wchoice([(5, "onehot_int"), (2, "mixed01"), (1, "onehot_flt"), (2, "dyadic")])
+    case = {"seed": rng.wchoice([(2, None), (3, rng.randint(0, 50)), (1, rng.randint(-2 ** 31, 2 ** 40))]),
+            "fmt": fmt, "kw": kw, "layout": layout, "batch": batch,
+            "wrap": rng.choice(["tuple", "list"]), "pmf_type": rng.wchoice([(3, "list"), (1, "tuple")]),
+            "nobatch": rng.wchoice([(3, "raise"), (1, "none"), (1, "keyerror")]), "e2e": rng.chance(0.35), "calls": []}
+    acts = gen_actions(rng, kind, K)
+    K = len(acts)
+    ncols = {"A": 1, "AP": 2, "PM": K}.get(fmt, 1) + (1 if kw else 0)
+    seen = {}
+    same_ctx = rng.chance(0.15)
+    for c in range(ncalls):
+        r = rng.below(10)
+        if r < 2 and c > 0:
+            K2 = rng.wchoice([(1, 1), (2, 2), (2, 3), (1, 4)])
+            acts = gen_actions(rng, kind, K2)      # another action set
+        elif r < 3 and c > 0:
+            acts = [equal_twin(a) for a in acts]   # an equal list of other objects/types ([0,1] -> [False,True] / [0.0,1.0])
+        K = len(acts)
+        n = 1 if not batch else rng.wchoice([(2, 1), (3, 2), (3, 3), (1, 4), (2, K), (2, ncols), (1, max(1, ncols - 1))])
+        call = []
+        per_row_acts = batch and rng.chance(0.25)
+        for i in range(n):
+            A = acts if not per_row_acts else rng.shuffle(acts)
+            ctx = {"n": 0} if same_ctx else gen_ctx(rng)
+            row = {"ctx": ctx, "actions": A, "pick": rng.below(len(A)), "p": rng.wchoice([(4, dy(rng)), (1, {"i": 1}), (1, {"f": [1, 1]}), (1, {"f": [1, 2]})]),
+                   "pmf": gen_pmf(rng, len(A), pmf_style), "kwargs": gen_kwargs(rng, keys if not (kw and rng.chance(0.05)) else rng.shuffle(keys))}
+            key = json.dumps([freeze_json(ctx), [freeze_json(a) for a in A]], sort_keys=True)
+            if key in seen:        # a learner is a function of what it is given: same (context, actions) -> same answer
+                row = dict(seen[key], ctx=ctx, actions=A)
+            else:
+                seen[key] = row
+            call.append(row)
+        case["calls"].append(call)
+    return case
+
+
+def equal_twin(a):
+    k, x = kind_of(a)
+    if k == "i" and x in (0, 1):
+        return [{"b": bool(x)}, {"f": [x, 1]}][x % 2]
+    if k == "b":
+        return {"i": int(x)}
+    if k == "f" and x[0] % x[1] == 0 and 0 <= x[0] // x[1] <= 9:
+        return {"i": x[0] // x[1]}
+    return json.loads(json.dumps(a))
+
+
+def freeze_json(v):
+    """value key of an encoded value with Python's numeric equalities (0 == 0.0 == False)"""
+    k, x = kind_of(v)
+    if k == "b":
+        return ["num", int(x), 1]
+    if k == "i":
+        return ["num", x, 1]
+    if k == "f":
+        from fractions import Fraction
+        fr = Fraction(x[0], x[1])
+        return ["num", fr.numerator, fr.denominator]
+    if k in ("t", "l"):
+        return [k, [freeze_json(e) for e in x]]
+    if k == "d":
+        return ["d", sorted([freeze_json(a), freeze_json(b)] for a, b in x)]
+    return [k, x]
+
+
+def gen_ambiguous(rng):
+    """outside the quantifier, (A) only: copies / aliases of the offered objects, un-hinted shapes that can be read two ways,
+    malformed answers"""
+    case = gen_case(rng)
+    r = rng.below(10)
+    if r < 5:
+        case["answer"] = "copy"
+    elif r < 7:
+        case["answer"] = "alias"
+        # probability-like float actions so that PMF entries can be the offered objects
+        for call in case["calls"]:
+            for row in call:
+                K = len(row["actions"])
+                if K >= 2:
+                    den = 8
+                    cuts = sorted(rng.randint(1, den - 1) for _ in range(K - 1))
+                    parts = [b - a for a, b in zip([0] + cuts, cuts + [den])]
+                    row["pmf"] = [{"f": [p, den]} for p in parts]
+                    row["actions"] = [{"f": [p, den]} for p in parts][:1] + row["actions"][1:]
+    elif r < 8:
+        case["weird"] = "pmf-not-normalised"
+        for call in case["calls"]:
+            for row in call:
+                row["pmf"] = [{"f": [1, 4]} for _ in row["actions"]] if len(row["actions"]) != 4 else [{"f": [1, 2]} for _ in row["actions"]]
+    elif r < 9:
+        case["weird"] = "pmf-wrong-length"
+        for call in case["calls"]:
+            for row in call:
+                row["pmf"] = row["pmf"] + [{"i": 0}]
+    else:
+        case["weird"] = "hint-named-feature"
+        for call in case["calls"]:
+            for row in call:
+                row["actions"] = [{"d": [[{"s": rng.choice(HINTS)}, {"i": j}], [{"s": "x"}, {"i": 1}]]} for j in range(len(row["actions"]))]
+    # keep the learner a function of its input
+    seen = {}
+    for call in case["calls"]:
+        for i, row in enumerate(call):
+            key = json.dumps([freeze_json(row["ctx"]), [freeze_json(a) for a in row["actions"]]], sort_keys=True)
+            if key in seen:
+                call[i] = dict(seen[key], ctx=row["ctx"], actions=row["actions"])
+            else:
+                seen[key] = row
+    return case
+
+
 class C15(Property):
     id = "C15"
     prop_modules = ["CobaVerif.Props.C15"]
-    quick_n, thorough_n, search_n = 1500, 40000, 3000
+    quick_n, thorough_n, search_n = 6000, 150000, 4000
     case_timeout = 60
     workers = 8
-    rule = "TODO"
+    rule = ("one scripted learner per case answering 1-3 predict calls consistently in one of 6 formats x +-kwargs x {unbatched, batched answered "
+            "row-major / column-major / by a learner that cannot handle batches}; 20 kinds of action sets (ints incl. 0/1, bools, probability-like "
+            "floats, strings, one-hot tuples/lists, 1-3 item tuples, sparse dicts, mixed) of 1-5 actions; batch sizes 1-4 biased to the number of "
+            "actions and the number of answer columns (square case); PMFs one-hot int/float or dyadic; 15% of cases are outside the quantifier "
+            "(copies/aliases of offered objects, malformed PMFs, hint-named features) and are checked by (A) only; "
+            "non-trivial = the real code returned a result for every call of an in-quantifier case with >= 2 rows overall or a PMF draw")
+    trusted_base = [
+        "CPython object identity: the harness numbers the objects the learner receives/returns by id(); ints in [-5,256], bools and None are compared by value by `is` in the model",
+        "coba.random.CobaRandom.choicew is the C05 model (finished property C05); PMF entries are dyadic so float sums are exact rationals",
+        "isclose(sum,1,abs_tol=.001) modelled as |sum-1| <= 1/1000 (generated sums are exactly 1 or off by >= 1/16)",
+        "dict keys are strings (sparse features, kwargs, hints); numpy/torch answers and batches are excluded",
+    ]
+    assumptions = ["the learner is a function of (context, actions): the same row is answered the same way in batch, per-row and probe calls",
+                   "a SafeLearner is used either always batched or never (as an evaluator does)",
+                   "kwargs of the rows of one batch have the same keys"]
+    partial_theorems = {}
+
+    # ---- cases
+    def generate(self, rng, tier):
+        if rng.chance(0.15):
+            return gen_ambiguous(rng)
+        return gen_case(rng)
+
+    def search(self, rng, tier):
+        return gen_case(rng)
 
     def corpus(self):
-        return []
+        return corpus_cases()
 
-    def generate(self, rng, tier):
-        raise NotImplementedError
-
+    # ---- evaluation
     def evaluate(self, case, driver):
         fails, tags = [], []
         learner, recs = run_case(case)
+        fmt, layout, batch = case["fmt"], case["layout"], bool(case.get("batch"))
+        name = "%s/%s%s" % (("not" if not batch else layout), fmt, "+kw" if case.get("kw") else "")
+        inq, why = in_quantifier(case)
+        tags += ["fmt:" + name, "quant:" + ("in" if inq else "out:" + why[:40])]
+        dclass = defect_class(case)
+        tags.append("class:" + dclass)
+        impl = outcome_impl(recs)
+        if any("err" in o for o in impl):
+            tags.append("impl-raises:" + [o["err"] for o in impl if "err" in o][0])
+        nrows = sum(len(c) for c in case["calls"])
+        tags.append("rows:%d" % min(nrows, 6))
+        tags.append("K:%d" % len(case["calls"][0][0]["actions"]))
+        if batch and len(case["calls"][0]) == len(case["calls"][0][0]["actions"]):
+            tags.append("square:n=K")
+        if inq:
+            for what, detail in monitor(case, learner, recs):
+                # in the region of a recorded defect the first call's symptom names the finding; once the first call went wrong
+                # (or right by coincidence) the memoised layout/format makes later calls fail in arbitrary ways
+                fam = "later" if detail.startswith("later:") else FAMILY.get(detail, detail if detail.startswith("raises-") else "value")
+                sig = "%s/%s" % (dclass, fam) if dclass != "general" else "general:%s/%s" % (name, detail.replace("later:", ""))
+                fails.append(F("B", what + "  [seed %s]" % case.get("seed"), sig))
+            if not fails and case.get("e2e") and e2e_applicable(case):
+                tags.append("e2e")
+                l2, res = run_e2e(case)
+                for what, detail in monitor_e2e(case, l2, res):
+                    fails.append(F("B", what + "  [seed %s]" % case.get("seed"), "general:%s/%s" % (name, detail)))
+        model = None
+        if driver is not None:
+            model = self.correspond(driver, case, learner, recs, impl, inq, fails, tags)
+        nontrivial = inq and not any("err" in o for o in impl) and len(impl) == len(case["calls"]) and (nrows >= 2 or fmt in ("PM", "dPM"))
+        return {"fails": fails, "nontrivial": bool(nontrivial), "tags": tags, "impl": impl, "model": model}
+
+    def correspond(self, driver, case, learner, recs, impl, inq, fails, tags):
+        """(A) implementation = Lean model on the learner's actual answers (with CPython's identities); for learners inside the
+        quantifier also: Lean's own scripted learner (the one the theorems are about) renders the same answers and gives the same results."""
+        refs = Refs()
+        from coba.environments import Batch
+        calls = []
+        try:
+            for rec in recs:
+                refs.ext(rec["ctx"])
+                refs.ext(rec["actions"])
+                calls.append(refs.arg(bool(case.get("batch")), rec["ctx"], rec["actions"]))
+            recorded = []
+            for rec in recs:
+                k = 0
+                for (b, c, a), ans in zip(learner.predict_calls[rec["np0"]:rec["np1"]], learner.answers[rec["np0"]:rec["np1"]]):
+                    e = {"arg": refs.arg(b, c, a, received=True, row=k)}
+                    if case.get("batch") and not b:
+                        k += 1
+                    if isinstance(ans, BaseException):
+                        e["exc"] = 1
+                    else:
+                        e["resp"] = refs.enc(ans)
+                    recorded.append(e)
+        except Unencodable as e:
+            tags.append("unencodable")
+            return None
+        fx = variant()
+        tags.append("variant:" + "".join(k[0] + str(int(v)) for k, v in sorted(fx.items())))
+        req = {"fx": fx, "seed": 1 if case.get("seed") is None else case["seed"], "calls": calls, "recorded": recorded}
         if case.get("answer", "offered") == "offered":
-            cls = "+".join(sorted(action_class(case)))
-            for what, sig in monitor(case, learner, recs):
-                fails.append(F("B", what, sig))
-        return {"fails": fails, "nontrivial": True, "tags": tags}
+            req["spec"] = {"fmt": case["fmt"], "kw": bool(case.get("kw")), "layout": case["layout"], "tup": case.get("wrap", "tuple") == "tuple",
+                           "pmfTup": case.get("pmf_type", "list") == "tuple"}
+            pol = []
+            lref = Refs()
+            for call in case["calls"]:
+                for row in call:
+                    pol.append({"ctx": lref.enc(dec(row["ctx"])), "actions": [lref.enc(dec(a)) for a in row["actions"]], "pick": row["pick"],
+                                "p": lref.enc(dec(row["p"])), "pmf": [lref.enc(dec(x)) for x in row["pmf"]],
+                                "kw": [[dec(k), lref.enc(dec(v))] for k, v in row["kwargs"]] if case.get("kw") else []})
+            req["policy"] = pol
+        ans = driver.ask(req)
+        mrec = outcome_model(ans["recorded"])
+        d = outcomes_differ(impl, mrec)
+        name = "%s/%s%s" % (("not" if not case.get("batch") else case["layout"]), case["fmt"], "+kw" if case.get("kw") else "")
+        if d:
+            fails.append(F("A", "%s: SafeLearner.predict differs from the model run on the learner's actual answers: %s" % (name, d), "A:result:" + name))
+        # the calls made to the learner
+        real_trace = []
+        k = 0
+        for rec in recs:
+            real_trace.append([trace_by_value(e["arg"]) for e in recorded[rec["np0"]:rec["np1"]]])
+        mtrace = [[[bool(a["batch"]), [[r["ctx"], r["actions"]] for r in a["rows"]]] for a in t] for t in ans["recorded_trace"]]
+        if real_trace[:len(mtrace)] != mtrace[:len(real_trace)] and not d:
+            fails.append(F("A", "%s: the calls SafeLearner made to the learner differ from the model: real %s, model %s" % (
+                name, json.dumps([[(t[0], len(t[1])) for t in c] for c in real_trace]), json.dumps([[(t[0], len(t[1])) for t in c] for c in mtrace])), "A:trace:" + name))
+        if "scripted" in ans and not case.get("weird"):
+            rend = ans["rendered"]
+            actual = [({"exc": "LearnerError"} if "exc" in e else strip(e["resp"])) for e in recorded]
+            if case.get("nobatch", "raise") != "raise":
+                # the Lean learner of the theorems raises on a batch; `None` / another exception take the same fallback path
+                actual = [({"exc": "LearnerError"} if (e["arg"]["batch"] and case["layout"] == "single") else a) for e, a in zip(recorded, actual)]
+            if rend != actual:
+                i = [x != y for x, y in zip(rend, actual)].index(True) if len(rend) == len(actual) else -1
+                fails.append(F("A", "%s: the Lean scripted learner renders another answer than the Python one (call %d): lean %s, python %s" % (
+                    name, i, json.dumps(rend[i])[:200], json.dumps(actual[i])[:200]), "A:render:" + name))
+            d2 = outcomes_differ(impl, outcome_model(ans["scripted"]))
+            if d2 and not d:
+                fails.append(F("A", "%s: SafeLearner.predict differs from the model run on the Lean scripted learner: %s" % (name, d2), "A:scripted:" + name))
+            if inq and "expected" in ans:
+                self.check_c(case, ans, fails, name)
+        return {"recorded": mrec, "layout": [r.get("layout") for r in ans["recorded"]], "fmt": [r.get("fmt") for r in ans["recorded"]]}
+
+    def check_c(self, case, ans, fails, name):
+        if ans.get("hyp") and not ans.get("holds"):
+            fails.append(F("C", "%s: model run on the scripted learner does not meet the spec although the theorem's hypotheses hold: %s" % (
+                name, json.dumps(ans.get("expected"))[:300]), "C:roundtrip"))
+
+    # ---- shrinking
+    def shrink(self, case):
+        calls = case["calls"]
+        if len(calls) > 1:
+            for k in range(len(calls)):
+                yield dict(case, calls=calls[:k] + calls[k + 1:])
+        for k, call in enumerate(calls):
+            if len(call) > 1:
+                for i in range(len(call)):
+                    yield dict(case, calls=calls[:k] + [call[:i] + call[i + 1:]] + calls[k + 1:])
+        # fewer actions (same for all rows)
+        K = min(len(r["actions"]) for c in calls for r in c)
+        if K > 1:
+            for j in range(K):
+                nc = []
+                for call in calls:
+                    nr = []
+                    for r in call:
+                        A = r["actions"][:j] + r["actions"][j + 1:]
+                        pmf = r["pmf"][:j] + r["pmf"][j + 1:]
+                        tot = sum(dec(x) for x in pmf)
+                        if tot != 1:
+                            pmf = [{"i": 1}] + [{"i": 0}] * (len(A) - 1)
+                        nr.append(dict(r, actions=A, pmf=pmf, pick=min(r["pick"] - (1 if r["pick"] > j else 0), len(A) - 1)))
+                    nc.append(nr)
+                yield dict(case, calls=nc)
+        for k, call in enumerate(calls):
+            for i, r in enumerate(call):
+                if r["kwargs"] and len(r["kwargs"]) > 1 and i == 0:
+                    yield dict(case, calls=[[dict(rr, kwargs=rr["kwargs"][:1]) for rr in c] for c in calls])
+                if r["ctx"] != {"i": i}:
+                    yield dict(case, calls=calls[:k] + [call[:i] + [dict(r, ctx={"i": i})] + call[i + 1:]] + calls[k + 1:])
+        if case.get("seed") not in (None, 1):
+            yield dict(case, seed=1)
+        if case.get("wrap") == "list":
+            yield dict(case, wrap="tuple")
+        if case.get("pmf_type") == "tuple":
+            yield dict(case, pmf_type="list")
 
     def snippet(self, case):
-        return ("import sys; sys.path[:0]=['/repo','/verif/harness']\nfrom props.c15 import replay_plain\nimport json\n"
+        return ("import sys; sys.path[:0]=['/repo','/verif/harness']\nimport json\nfrom props.c15 import replay_plain\n"
                 "replay_plain(json.loads(%r))\n" % json.dumps(case))
+
+
+def replay_plain(case):
+    """plain reproduction: the scripted learner (harness/props/c15_learners.py) behind the real SafeLearner"""
+    learner, recs = run_case(case)
+    want = intended(case)
+    for ci, (rec, exp) in enumerate(zip(recs, want)):
+        print("call", ci, "context", rec["ctx"], "actions", rec["actions"])
+        print("   learner answered:", [repr(a)[:200] for a in learner.answers[rec["np0"]:rec["np1"]]])
+        print("   SafeLearner.predict ->", repr(rec.get("out", rec.get("exc")))[:300])
+        print("   intended (index of action, prob, kwargs) per row:", exp)
+    for what, detail in monitor(case, learner, recs):
+        print("PROPERTY VIOLATED:", what)
+
+
+def corpus_cases():
+    cs = []
+
+    def row(acts, pick, i=0, pmf=None, kw=None, ctx=None):
+        K = len(acts)
+        return {"ctx": ctx if ctx is not None else {"i": i}, "actions": acts, "pick": pick, "p": {"f": [1, 4]},
+                "pmf": pmf or [{"i": int(j == pick)} for j in range(K)], "kwargs": kw if kw is not None else [[{"s": "k"}, {"i": 5 + i}]]}
+    sets = {
+        "int01": [{"i": 0}, {"i": 1}], "int012": [{"i": 0}, {"i": 1}, {"i": 2}], "str": [{"s": "aa"}, {"s": "bb"}, {"s": "cc"}],
+        "fltp": [{"f": [1, 4]}, {"f": [3, 4]}], "onehot2": [{"t": [{"i": 1}, {"i": 0}]}, {"t": [{"i": 0}, {"i": 1}]}],
+        "onehot1": [{"t": [{"i": 1}]}], "dict2": [{"d": [[{"s": "x"}, {"i": j}], [{"s": "y"}, {"i": 7}]]} for j in (2, 3)],
+        "sparse": [{"d": [[{"s": "f%d" % j}, {"i": 1}]]} for j in range(3)], "one": [{"s": "only"}], "bool": [{"b": False}, {"b": True}],
+    }
+    for fmt in FMTS:
+        for kw in (False, True):
+            for mode in ("not", "single", "row", "col"):
+                for an, acts in sets.items():
+                    K = len(acts)
+                    for n in ((1,) if mode == "not" else (1, 2, K, 3)):
+                        for off in ((0, 1) if fmt == "PM" and K > 1 else (1,)):
+                            rows = [row(acts, (i + off) % K, i) for i in range(n)]
+                            cs.append({"seed": 1, "fmt": fmt, "kw": kw, "layout": "single" if mode == "not" else mode, "batch": mode != "not",
+                                       "e2e": fmt in ("A", "PM", "dAP") and an in ("int01", "str", "sparse"), "calls": [rows, rows[:1]]})
+    seen, out = set(), []
+    for c in cs:
+        k = json.dumps(c, sort_keys=True)
+        if k not in seen:
+            seen.add(k)
+            out.append(c)
+    return out
 
 
 PROPERTY = C15()
